@@ -5,6 +5,7 @@ mod cypher;
 mod sched;
 mod dump;
 mod obs;
+mod pages;
 mod storage;
 mod val;
 
@@ -80,6 +81,12 @@ fn main() {
                 json!({"histories": s.histories, "ops": s.ops, "dumps": s.dumps, "images": s.images,
                        "images_distinct": s.images_distinct, "faults": s.faults, "io_steps": s.io_steps})
             );
+        }
+        "pages" => {
+            let scenarios = read_ndjson(a.get("in").expect("--in"));
+            let out = std::fs::File::create(a.get("out").expect("--out")).unwrap();
+            let mut w = BufWriter::new(out);
+            println!("{}", pages::run(&obs, &scenarios, &mut w, &scratch));
         }
         "btree" => {
             let seqs = read_ndjson(a.get("in").expect("--in"));
